@@ -299,9 +299,14 @@ def shard(i: int, n: int, tier: str, seed: int) -> Result:
                                            'loop_target_after_loop': _is_target_leak(body, j.bad)}})
             # (1) run every combination of branch outcomes and trip counts
             ps, ls = count_inputs(body)
-            combos = list(itertools.product(*([[False, True]] * len(ps)), *([[0, 1, 2]] * len(ls))))
-            if len(combos) > 64:
-                combos = rng.sample(combos, 64)
+            if (2 ** len(ps)) * (3 ** len(ls)) > 64:
+                # sampled without building the product (2^15 * 3^10 combinations for the largest skeletons)
+                chosen = set()
+                while len(chosen) < 64:
+                    chosen.add(tuple(rng.random() < 0.5 for _ in ps) + tuple(rng.choice([0, 1, 2]) for _ in ls))
+                combos = sorted(chosen)
+            else:
+                combos = list(itertools.product(*([[False, True]] * len(ps)), *([[0, 1, 2]] * len(ls))))
             for combo in combos:
                 args = [bool(v) for v in combo[:len(ps)]] + [[1.0] * v for v in combo[len(ps):]]
                 out = genrun.call(r, args, timeout=3.0)
